@@ -428,7 +428,12 @@ class Gen:
         that matches any word may only be the last item."""
         r = self.r
         n = r.randint(2, 3)
-        items = [Lit(r.choice(['--o=', 'k=', 'x', '-p', 'v:']))]
+        if r.random() < 0.2:
+            # no literal prefix: the word may begin with a repetition / an optional part / alternatives
+            first = self.expr(max(depth, 1), in_word=True, allow_any=False, top=False)
+            items = [first if first[0] != 'lit' else Many(Alt(first, Lit(r.choice(['+', '-', ',']))))]
+        else:
+            items = [Lit(r.choice(['--o=', 'k=', 'x', '-p', 'v:']))]
         for i in range(1, n):
             last = (i == n - 1)
             it = self.expr(depth, in_word=True, allow_any=(allow_any and last), top=False)
